@@ -73,7 +73,7 @@ Proof. vm_compute. split; reflexivity. Qed.
 (* ------------------------------------------------------------------------------------------------------
    Added in build session 4 (statements re-stated from the proof files by harness tooling; each is closed by
    exact). *)
-From SplipyModel Require Import Proofs.ObjEval Model.ConstPar Proofs.SplitCompose Proofs.SectionEndToEnd Transfer.ParamObj Transfer.ParamOps Transfer.ParamOps2 Model.EdgeLoop Proofs.EdgeLoopProofs.
+From SplipyModel Require Import Proofs.ObjEval Model.ConstPar Proofs.SplitCompose Proofs.SectionEndToEnd Transfer.ParamObj Transfer.ParamOps Transfer.ParamOps2 Model.EdgeLoop Proofs.EdgeLoopProofs Proofs.EdgeLoopBridge.
 Open Scope R_scope.
 Theorem C15_pinned_eval :
   forall (tol : R) (o : obj R),
@@ -446,4 +446,246 @@ Theorem C15_old_greedy_search_open_output_refuted :
          allclose 0%Q 0.00000001%Q [0%Q; 0%Q] [(-1)%Q; 2%Q] = false.
 Proof. exact @closed_loop_output_refuted. Qed.
 Print Assumptions C15_old_greedy_search_open_output_refuted.
+
+Theorem C15_obj_reverse_cps :
+  forall (tol : R) (o : obj R) (b : basis R),
+         wf_obj_R tol o -> o_bases o = [b] -> b_per1 b = 0%nat -> o_cps (rvo o) = rev (o_cps o).
+Proof. exact @obj_reverse_cps. Qed.
+Print Assumptions C15_obj_reverse_cps.
+
+Theorem C15_ec_of_obj_reverse :
+  forall (tol : R) (o : obj R) (b : basis R),
+         wf_obj_R tol o -> o_bases o = [b] -> b_per1 b = 0%nat -> ec_of_obj (rvo o) = ec_rev rvo (ec_of_obj o).
+Proof. exact @ec_of_obj_reverse. Qed.
+Print Assumptions C15_ec_of_obj_reverse.
+
+Theorem C15_curve_eval_start :
+  forall (tol : R) (o : obj R) (b : basis R),
+         0 < tol ->
+         wf_obj_R tol o ->
+         o_bases o = [b] ->
+         b_per1 b = 0%nat -> clamped_start b -> obj_eval tol o [b_start b] = Ok (cpoint o (hd [] (o_cps o))).
+Proof. exact @curve_eval_start. Qed.
+Print Assumptions C15_curve_eval_start.
+
+Theorem C15_curve_eval_end :
+  forall (tol : R) (o : obj R) (b : basis R),
+         0 < tol ->
+         wf_obj_R tol o ->
+         o_bases o = [b] ->
+         b_per1 b = 0%nat -> clamped_end b -> obj_eval tol o [b_end b] = Ok (cpoint o (last (o_cps o) [])).
+Proof. exact @curve_eval_end. Qed.
+Print Assumptions C15_curve_eval_end.
+
+Theorem C15_curve_loop_sound :
+  forall (tol rtol atol : R) (curves : list (obj R)) (out : list (ecurve (list R) (obj R))),
+         0 < tol ->
+         Forall (open_curve tol) curves ->
+         loop_order2 rtol atol rvo (map ec_of_obj curves) = Ok out ->
+         exists (c0 c1 c2 c3 u1 u2 u3 : obj R) (b1 b2 b3 : bool),
+           curves = [c0; c1; c2; c3] /\
+           Permutation.Permutation [c1; c2; c3] [u1; u2; u3] /\
+           (let x1 := mrevo b1 u1 in
+            let x2 := mrevo b2 u2 in
+            let x3 := mrevo b3 u3 in
+            out = map ec_of_obj [c0; x1; x2; x3] /\
+            Forall (open_curve tol) [c0; x1; x2; x3] /\ oclosed_loop rtol atol c0 x1 x2 x3).
+Proof. exact @curve_loop_sound. Qed.
+Print Assumptions C15_curve_loop_sound.
+
+Theorem C15_curve_loop_complete :
+  forall (tol rtol atol : R) (c0 c1 c2 c3 u1 u2 u3 : obj R) (b1 b2 b3 : bool),
+         0 < tol ->
+         Forall (open_curve tol) [c0; c1; c2; c3] ->
+         Permutation.Permutation [c1; c2; c3] [u1; u2; u3] ->
+         oclosed_loop rtol atol c0 (mrevo b1 u1) (mrevo b2 u2) (mrevo b3 u3) ->
+         exists (v1 v2 v3 : obj R) (d1 d2 d3 : bool),
+           Permutation.Permutation [c1; c2; c3] [v1; v2; v3] /\
+           (let x1 := mrevo d1 v1 in
+            let x2 := mrevo d2 v2 in
+            let x3 := mrevo d3 v3 in
+            loop_order2 rtol atol rvo (map ec_of_obj [c0; c1; c2; c3]) = Ok (map ec_of_obj [c0; x1; x2; x3]) /\
+            Forall (open_curve tol) [c0; x1; x2; x3] /\ oclosed_loop rtol atol c0 x1 x2 x3).
+Proof. exact @curve_loop_complete. Qed.
+Print Assumptions C15_curve_loop_complete.
+
+Theorem C15_coons_of_edge_curves :
+  forall (tol : R) (bottom right top left : obj R),
+         0 < tol ->
+         unit_curve tol bottom ->
+         unit_curve tol right ->
+         unit_curve tol top ->
+         unit_curve tol left ->
+         same_kind bottom right ->
+         same_kind bottom top ->
+         same_kind bottom left ->
+         closed_exact (map ec_of_obj [bottom; right; top; left]) ->
+         forall c : nat,
+         let S := coons (ev tol bottom c) (ev tol (rvo top) c) (ev tol (rvo left) c) (ev tol right c) in
+         forall u v : R,
+         S u 0 = ev tol bottom c u /\
+         S u 1 = ev tol (rvo top) c u /\ S 0 v = ev tol (rvo left) c v /\ S 1 v = ev tol right c v.
+Proof. exact @coons_of_edge_curves. Qed.
+Print Assumptions C15_coons_of_edge_curves.
+
+Theorem C15_coons_of_edge_curves_orig :
+  forall (tol : R) (bottom right top left : obj R),
+         0 < tol ->
+         unit_curve tol bottom ->
+         unit_curve tol right ->
+         unit_curve tol top ->
+         unit_curve tol left ->
+         same_kind bottom right ->
+         same_kind bottom top ->
+         same_kind bottom left ->
+         closed_exact (map ec_of_obj [bottom; right; top; left]) ->
+         forall c : nat,
+         let S := coons (ev tol bottom c) (ev tol (rvo top) c) (ev tol (rvo left) c) (ev tol right c) in
+         (forall u : R, S u 0 = ev tol bottom c u) /\
+         (forall v : R, S 1 v = ev tol right c v) /\
+         (forall (bt : basis R) (t : R),
+          o_bases top = [bt] ->
+          in_dom tol bt t -> ReverseEndToEnd.rev_ok (b_knots bt) (b_order bt) tol t -> S (1 - t) 1 = ev tol top c t) /\
+         (forall (bl : basis R) (t : R),
+          o_bases left = [bl] ->
+          in_dom tol bl t -> ReverseEndToEnd.rev_ok (b_knots bl) (b_order bl) tol t -> S 0 (1 - t) = ev tol left c t).
+Proof. exact @coons_of_edge_curves_orig. Qed.
+Print Assumptions C15_coons_of_edge_curves_orig.
+
+Theorem C15_edge_curves_coons_e2e :
+  forall (tol rtol atol : R) (curves : list (obj R)) (out : list (ecurve (list R) (obj R))),
+         0 < tol ->
+         Forall (unit_curve tol) curves ->
+         (forall a b : obj R, In a curves -> In b curves -> same_kind a b) ->
+         loop_order2 rtol atol rvo (map ec_of_obj curves) = Ok out ->
+         closed_exact out ->
+         exists (c0 c1 c2 c3 u1 u2 u3 : obj R) (b1 b2 b3 : bool),
+           curves = [c0; c1; c2; c3] /\
+           Permutation.Permutation [c1; c2; c3] [u1; u2; u3] /\
+           (let x1 := mrevo b1 u1 in
+            let x2 := mrevo b2 u2 in
+            let x3 := mrevo b3 u3 in
+            out = map ec_of_obj [c0; x1; x2; x3] /\
+            Forall (unit_curve tol) [c0; x1; x2; x3] /\
+            (forall c : nat,
+             let S := coons (ev tol c0 c) (ev tol (rvo x2) c) (ev tol (rvo x3) c) (ev tol x1 c) in
+             forall u v : R,
+             S u 0 = ev tol c0 c u /\
+             S u 1 = ev tol (rvo x2) c u /\ S 0 v = ev tol (rvo x3) c v /\ S 1 v = ev tol x1 c v)).
+Proof. exact @edge_curves_coons_e2e. Qed.
+Print Assumptions C15_edge_curves_coons_e2e.
+
+Theorem C15_surface_boundary_curves :
+  forall (tol : R) (o : obj R) (bu bv : basis R) (B T L Rr : list (list R)),
+         0 < tol ->
+         wf_obj_R tol o ->
+         o_bases o = [bu; bv] ->
+         open_dir bu ->
+         open_dir bv ->
+         length B = b_nfun bu ->
+         length T = b_nfun bu ->
+         length L = b_nfun bv ->
+         length Rr = b_nfun bv ->
+         (forall i : nat, (i < b_nfun bu)%nat -> nth i B [] = nth (i * b_nfun bv) (o_cps o) []) ->
+         (forall i : nat, (i < b_nfun bu)%nat -> nth i T [] = nth (i * b_nfun bv + (b_nfun bv - 1)) (o_cps o) []) ->
+         (forall j : nat, (j < b_nfun bv)%nat -> nth j L [] = nth j (o_cps o) []) ->
+         (forall j : nat, (j < b_nfun bv)%nat -> nth j Rr [] = nth ((b_nfun bu - 1) * b_nfun bv + j) (o_cps o) []) ->
+         (forall u : R,
+          obj_eval tol o [u; b_start bv] =
+          obj_eval tol {| o_bases := [bu]; o_cps := B; o_dim := o_dim o; o_rat := o_rat o |} [u]) /\
+         (forall u : R,
+          obj_eval tol o [u; b_end bv] =
+          obj_eval tol {| o_bases := [bu]; o_cps := T; o_dim := o_dim o; o_rat := o_rat o |} [u]) /\
+         (forall v : R,
+          obj_eval tol o [b_start bu; v] =
+          obj_eval tol {| o_bases := [bv]; o_cps := L; o_dim := o_dim o; o_rat := o_rat o |} [v]) /\
+         (forall v : R,
+          obj_eval tol o [b_end bu; v] =
+          obj_eval tol {| o_bases := [bv]; o_cps := Rr; o_dim := o_dim o; o_rat := o_rat o |} [v]).
+Proof. exact @surface_boundary_curves. Qed.
+Print Assumptions C15_surface_boundary_curves.
+
+Theorem C15_coons_surface_edges :
+  forall (tol : R) (cb ct cl cr : obj R) (bu bv : basis R) (g h : nat -> R),
+         0 < tol ->
+         wf_obj_R tol cb ->
+         wf_obj_R tol ct ->
+         wf_obj_R tol cl ->
+         wf_obj_R tol cr ->
+         o_bases cb = [bu] ->
+         o_bases ct = [bu] ->
+         o_bases cl = [bv] ->
+         o_bases cr = [bv] ->
+         open_dir bu ->
+         open_dir bv ->
+         same_kind cb ct ->
+         same_kind cb cl ->
+         same_kind cb cr ->
+         g 0%nat = 0 ->
+         g (b_nfun bv - 1)%nat = 1 ->
+         h 0%nat = 0 ->
+         h (b_nfun bu - 1)%nat = 1 ->
+         hd [] (o_cps cl) = hd [] (o_cps cb) ->
+         hd [] (o_cps cr) = last (o_cps cb) [] ->
+         last (o_cps cl) [] = hd [] (o_cps ct) ->
+         last (o_cps cr) [] = last (o_cps ct) [] ->
+         let S := coons_obj bu bv (o_dim cb) (o_rat cb) g h (o_cps cb) (o_cps ct) (o_cps cl) (o_cps cr) in
+         wf_obj_R tol S /\
+         (forall u : R, obj_eval tol S [u; b_start bv] = obj_eval tol cb [u]) /\
+         (forall u : R, obj_eval tol S [u; b_end bv] = obj_eval tol ct [u]) /\
+         (forall v : R, obj_eval tol S [b_start bu; v] = obj_eval tol cl [v]) /\
+         (forall v : R, obj_eval tol S [b_end bu; v] = obj_eval tol cr [v]).
+Proof. exact @coons_surface_edges. Qed.
+Print Assumptions C15_coons_surface_edges.
+
+Theorem C15_coons_surface_of_loop :
+  forall (tol : R) (bottom right top left : obj R) (bu bv : basis R) (g h : nat -> R),
+         0 < tol ->
+         open_curve tol bottom ->
+         open_curve tol right ->
+         open_curve tol top ->
+         open_curve tol left ->
+         o_bases bottom = [bu] ->
+         o_bases (rvo top) = [bu] ->
+         o_bases (rvo left) = [bv] ->
+         o_bases right = [bv] ->
+         same_kind bottom right ->
+         same_kind bottom top ->
+         same_kind bottom left ->
+         g 0%nat = 0 ->
+         g (b_nfun bv - 1)%nat = 1 ->
+         h 0%nat = 0 ->
+         h (b_nfun bu - 1)%nat = 1 ->
+         closed_exact (map ec_of_obj [bottom; right; top; left]) ->
+         let S :=
+           coons_obj bu bv (o_dim bottom) (o_rat bottom) g h (o_cps bottom) (rev (o_cps top)) 
+             (rev (o_cps left)) (o_cps right) in
+         wf_obj_R tol S /\
+         (forall u : R, obj_eval tol S [u; b_start bv] = obj_eval tol bottom [u]) /\
+         (forall u : R, obj_eval tol S [u; b_end bv] = obj_eval tol (rvo top) [u]) /\
+         (forall v : R, obj_eval tol S [b_start bu; v] = obj_eval tol (rvo left) [v]) /\
+         (forall v : R, obj_eval tol S [b_end bu; v] = obj_eval tol right [v]).
+Proof. exact @coons_surface_of_loop. Qed.
+Print Assumptions C15_coons_surface_of_loop.
+
+Theorem C15_unit_square_witness :
+  let tol := 1 / 4 in
+         let bottom := segR [0; 0] [1; 0] in
+         let right := segR [1; 0] [1; 1] in
+         let top := segR [1; 1] [0; 1] in
+         let left := segR [0; 1] [0; 0] in
+         (forall c : nat,
+          let S := coons (ev tol bottom c) (ev tol (rvo top) c) (ev tol (rvo left) c) (ev tol right c) in
+          forall u v : R,
+          S u 0 = ev tol bottom c u /\
+          S u 1 = ev tol (rvo top) c u /\ S 0 v = ev tol (rvo left) c v /\ S 1 v = ev tol right c v) /\
+         (let S :=
+            coons_obj lin01 lin01 2 false INR INR (o_cps bottom) (rev (o_cps top)) (rev (o_cps left)) (o_cps right) in
+          wf_obj_R tol S /\
+          (forall u : R, obj_eval tol S [u; 0] = obj_eval tol bottom [u]) /\
+          (forall u : R, obj_eval tol S [u; 1] = obj_eval tol (rvo top) [u]) /\
+          (forall v : R, obj_eval tol S [0; v] = obj_eval tol (rvo left) [v]) /\
+          (forall v : R, obj_eval tol S [1; v] = obj_eval tol right [v])).
+Proof. exact @unit_square_witness. Qed.
+Print Assumptions C15_unit_square_witness.
 
